@@ -635,6 +635,41 @@ fn run(ctx: &RunCtx) -> Report {
         report.elements += m;
         plan.push(format!("public caller: {m} bootstrapped() calls every {} ms from t={:.3}s", step / MS, start as f64 / SEC as f64));
     }
+    // 1 run in 10 (own random stream): a *burst* - a crawler-style application issues 132..170 lookups on
+    // distinct targets within a few milliseconds; every one of them must return
+    let mut brng = Rng::new(crate::rng::key(ctx.seed, &[crate::rng::tag("c06-burst")]));
+    if !held_stream && brng.chance(1, 10) {
+        let n = brng.usize(132, 170);
+        let at0 = t_first + brng.range(0, 2000) * MS;
+        let spread = brng.range(0, 40) * MS;
+        for e in 0..n {
+            let at = at0 + if spread == 0 { 0 } else { brng.range(0, spread / MS) * MS };
+            last_issue = last_issue.max(at);
+            let t = brng.id();
+            let kind = brng.below(4);
+            let ops = ops.clone();
+            sim.at(at, move |sim| {
+                let (label, op) = match kind {
+                    0 => ("find_node", sim.find_node(caller, t)),
+                    1 => ("get_immutable", sim.get_immutable(caller, t)),
+                    2 => ("get_peers", sim.get_peers(caller, t)),
+                    _ => ("get_closest_nodes", sim.get_closest_nodes(caller, t)),
+                };
+                ops.borrow_mut().push((2000 + e, label.to_string(), t, op));
+            });
+        }
+        // (hundreds of lookups: a snapshot after every step would dominate the run; the largest request
+        // timeout is then sampled from snapshots requested every 250 ms)
+        sim.set_snap_mode(SnapMode::OnDemand);
+        let mut st = at0;
+        while st < at0 + 120 * SEC {
+            sim.at(st, move |sim| sim.want_snapshot(caller));
+            st += 250 * MS;
+        }
+        report.probe("burst_runs", 1);
+        report.probe("burst_lookups", n as u64);
+        plan.push(format!("burst of {n} lookups on distinct targets at t={:.3}s (spread {} ms)", at0 as f64 / SEC as f64, spread / MS));
+    }
     // stalls of the caller
     if faulty && rng.chance(1, 3) {
         let at = t_first + rng.range(0, 3000) * MS;
